@@ -346,10 +346,12 @@ func c12Run(x *X, c c12Cfg, concurrent bool) {
 		big = 200000
 	}
 	if concurrent {
-		res := make([]string, 2)
-		for i := 0; i < 2; i++ {
+		got = append(got, call(f.method, 19, big)) // an earlier large exchange
+		res := make([]string, 4)
+		sizes := []int{c.buf - 10, c.buf - 2, big - 3, big} // frames just above the buffer size, and well above
+		for i := 0; i < 4; i++ {
 			i := i
-			vs.GoNamed(fmt.Sprintf("caller%d", i), func() { res[i] = call(f.method, uint64(20+i), []int{40, big}[i]) })
+			vs.GoNamed(fmt.Sprintf("caller%d", i), func() { res[i] = call(f.method, uint64(20+i), sizes[i]) })
 		}
 		vs.Quiesce()
 		got = append(got, res...)
@@ -358,6 +360,7 @@ func c12Run(x *X, c c12Cfg, concurrent bool) {
 		got = append(got, call(f.method, 13, 10))
 		got = append(got, call("Nope", 2, 10))
 		got = append(got, call(f.method+"Ctx", 3, 100))
+		got = append(got, call(f.method+"Ctx", 6, big))
 		if e := conn.Ping(); e != nil {
 			got = append(got, "ping:"+e.Error())
 		} else {
@@ -402,14 +405,14 @@ func c12Run(x *X, c c12Cfg, concurrent bool) {
 			x.Fail("C12/reply-changed-later", "configuration {%v}: the reply of request %d changed after later traffic", c, k.t)
 		}
 	}
-	want := []string{"ok", "E:unlucky thirteen", "E:can't find service C12.Nope", "ok", "pong", "ok", "stream-ok", "ok"}
+	want := []string{"ok", "E:unlucky thirteen", "E:can't find service C12.Nope", "ok", "ok", "pong", "ok", "stream-ok", "ok"}
 	if concurrent {
-		want = []string{"ok", "ok"}
+		want = []string{"ok", "ok", "ok", "ok", "ok"}
 	}
 	if fmt.Sprint(got) != fmt.Sprint(want) {
 		x.Fail("C12/transcript-differs", "configuration {%v}: transcript %v, expected %v", c, got, want)
 	}
-	execWant := map[byte]int{1: 1, 13: 1, 3: 1, 4: 1, 5: 1}
+	execWant := map[byte]int{1: 1, 13: 1, 3: 1, 4: 1, 5: 1, 6: 1}
 	if !(f.alias && (c.srvNoCopy || c.cliNoCopy)) {
 		execWant[30], execWant[31] = 1, 1
 	}
@@ -426,14 +429,32 @@ func c12Run(x *X, c c12Cfg, concurrent bool) {
 	vs.Quiesce()
 }
 
-func c12Body(full bool, concurrent bool) func(x *X) {
+func c12Body(full bool, concurrent bool) func(x *X) { return c12BodyS(full, concurrent, false) }
+
+func c12BodyS(full bool, concurrent bool, small bool) func(x *X) {
 	return func(x *X) {
 		var c c12Cfg
-		c.enc = encNames[x.Choose(len(encNames))]
-		c.cc = c12Codecs[x.Choose(len(c12Codecs))]
-		c.srvByName, c.cliByName = boolOf(x), boolOf(x)
-		c.buf = []int{64, 4096, 65536}[x.Choose(3)]
-		if full {
+		if small {
+			// a reduced matrix for the concurrent workload at d = 1: default and code headers, json/code/bytes codecs
+			c.enc = []string{"", "code"}[x.Choose(2)]
+			c.cc = c12Codecs[[]int{1, 3}[x.Choose(2)]]
+		} else {
+			c.enc = encNames[x.Choose(len(encNames))]
+			c.cc = c12Codecs[x.Choose(len(c12Codecs))]
+			c.srvByName, c.cliByName = boolOf(x), boolOf(x)
+		}
+		c.buf = []int{64, 1000, 4096, 65536}[x.Choose(4)]
+		if small {
+			switch x.Choose(4) {
+			case 1:
+				c.pipe = true
+			case 2:
+				c.dio = true
+			case 3:
+				c.pipe, c.dio = true, true
+			}
+			c.cliPipe = x.Choose(2) == 1
+		} else if full {
 			c.poll, c.pipe, c.dio, c.shared, c.srvNoCopy = boolOf(x), boolOf(x), boolOf(x), boolOf(x), boolOf(x)
 			c.cliDio, c.cliPipe, c.cliNoCopy = boolOf(x), boolOf(x), boolOf(x)
 		} else {
@@ -476,4 +497,5 @@ func init() {
 	register(&Scenario{Prop: "C12", Name: "c12/matrix-reduced", Quick: []Bound{{0, 0}}, Thorough: []Bound{{0, 0}}, Body: c12Body(false, false), MinHB: 1, MaxSteps: 200000, BudgetQ: 50})
 	register(&Scenario{Prop: "C12", Name: "c12/matrix-full", Quick: []Bound{}, Thorough: []Bound{{0, 0}}, Body: c12Body(true, false), MinHB: 1, MaxSteps: 200000, BudgetT: 500})
 	register(&Scenario{Prop: "C12", Name: "c12/concurrent-reduced", Quick: []Bound{{0, 0}}, Thorough: []Bound{{1, 0}}, Body: c12Body(false, true), MinHB: 1, MaxSteps: 200000, BudgetQ: 20})
+	register(&Scenario{Prop: "C12", Name: "c12/concurrent-small-matrix", Quick: []Bound{{1, 0}}, Thorough: []Bound{{2, 0}}, Body: c12BodyS(false, true, true), MinHB: 1, MaxSteps: 200000, BudgetQ: 40})
 }
